@@ -474,6 +474,8 @@ def taint_flow_check(ctx, items, builder, nexh, nsim, runs=None, prop_what="tain
                  "facts.json": json.dumps(p.facts), "witness.json": json.dumps({"dec": bits, "native": run_}),
                  "config.yaml": open(os.path.join(p.mod, cfgs[0].replace("+rw", "") + ".yaml")).read()},
                 key="%s/%s" % (ctx.prop, json.dumps(chain)))
+    if mode == "taint" and not ctx.replay:
+        cli_exit_status(ctx, ok, truth, bykey, sorted(configs or TAINT_CONFIGS)[0])
     for p, why in absent[:5]:
         print("NOTE analyzer facts absent for chain %s: %s" % (p.meta.get("chain"), why[:300].replace("\n", " ")))
     nflows = len({(t["prog"].idx, t["ev"]["a"], t["ev"]["b"]) for t in truth if t["ev"]["e"] == evkind})
@@ -530,6 +532,7 @@ def calls_check(ctx, whats, prop_text):
     rnd.shuffle(sim)
     sim = sim[: (1000 if thorough else 100)]
     items = [list(c) for c in chains] + [list(c) for c in sim]
+    items += [c for c in pinned_chains(ctx.prop) if list(c) not in items]
     progs = build_programs(ctx, items, PTR_CONFIGS, lambda ch, name: semgen.build_chain(ch, name=name))
     drive(ctx, bins, progs, pointer=["ptr"])
     ok = [p for p in progs if p.facts is not None]
@@ -791,6 +794,36 @@ def shared_check(ctx, items, builder, nexh, nsim):
     ctx.finish_args = dict(exhaustive=True, evaluations=len(progs), distinct=len(progs),
                            rule="one case = one generated concurrent program (chain with a goroutine-decorated step, "
                                 "source or sink); distinct = distinct (chain, placement) pairs")
+
+
+def cli_exit_status(ctx, ok, truth, bykey, cfgname, n=6):
+    """the statement's last clause: when a flow is reported the `argot taint` tool exits with a failure status
+    (and with success when nothing is reported).  Checked on a seeded sample with the real CLI binary."""
+    exe = os.path.join(ctx.bin, "argot")
+    q = vlib.sh(["go", "build", "-o", exe, "./cmd/argot"], cwd=vlib.REPO, env=vlib.goenv(), check=False, timeout=900)
+    if q.returncode != 0:
+        raise Inconclusive("cannot build cmd/argot: " + q.stdout[-2000:])
+    missed = {k[0] for k in bykey}
+    withflow = {t["prog"].idx for t in truth if t["ev"]["e"] == "flow" and not t["ev"]["v"]}
+    rnd = random.Random(ctx.seed + 99)
+    cand = [p for p in ok if p.idx in withflow and p.idx not in missed]
+    none = [p for p in ok if not any(t["prog"] is p and t["ev"]["e"] == "flow" for t in truth)
+            and not p.facts["taint"][cfgname]["flows"] and not p.facts["taint"][cfgname]["escapes"]]
+    rnd.shuffle(cand); rnd.shuffle(none)
+    nchk = 0
+    for p, want_fail in [(x, True) for x in cand[:n]] + [(x, False) for x in none[:2]]:
+        r = subprocess.run([exe, "taint", "-config", os.path.join(p.mod, cfgname + ".yaml"), "./" + p.name], cwd=p.mod,
+                           env=vlib.goenv(), stdout=subprocess.PIPE, stderr=subprocess.STDOUT, text=True, timeout=600)
+        nchk += 1
+        reported = bool(p.facts["taint"][cfgname]["flows"])
+        if want_fail and reported and r.returncode == 0:
+            ctx.violation("`argot taint` exits with status 0 although the analysis reports a taint flow for the program "
+                          "with chain %s (config %s)" % (p.meta.get("chain"), cfgname),
+                          {"main.go": open(os.path.join(p.dir, "main.go")).read(), "output.txt": r.stdout[-4000:]},
+                          key="%s/cli-exit/%s" % (ctx.prop, json.dumps(p.meta.get("chain"))))
+        if not want_fail and r.returncode != 0 and "found problems" in r.stdout:
+            pass   # over-reporting is not part of the property
+    ctx.extra["cli_exit_status_checked"] = nchk
 
 
 def replay(ctx, path, mode="taint", configs=None):
